@@ -42,8 +42,12 @@ func TestVerifC02MailboxSeq(t *testing.T) {
 			mb = NewUnboundedSegmentedMailbox()
 		case "nonblocking-bounded":
 			mb = NewNonBlockingBoundedMailbox(c.Cap)
+		case "bounded":
+			mb = NewBoundedMailbox(c.Cap)
 		default:
-			t.Fatalf("kind %q", c.Kind)
+			if mb = vdMailboxByName(c.Kind); mb == nil {
+				t.Fatalf("kind %q", c.Kind)
+			}
 		}
 		out := c02MbOut{Kind: c.Kind, Cap: c.Cap}
 		for _, op := range c.Ops {
@@ -124,6 +128,20 @@ func TestVerifC02Scenarios(t *testing.T) {
 	}
 	for _, mb := range mbs {
 		for _, o := range vdScenarios(mb) {
+			w.put(o)
+		}
+	}
+	// the reclaim races with the real mailbox sitting exactly on a segment / ring boundary
+	type bnd struct {
+		mb string
+		n  int
+	}
+	bs := []bnd{{"segmented", 256}, {"segmented", 512}, {"nonblocking-bounded", 4096}, {"bounded", 4096}}
+	if verifEnvInt("VERIF_THOROUGH", 0) == 1 {
+		bs = append(bs, bnd{"segmented", 1024}, bnd{"unbounded", 256}, bnd{"priority", 256})
+	}
+	for _, b := range bs {
+		for _, o := range vdScenariosAtBoundary(b.mb, b.n) {
 			w.put(o)
 		}
 	}
